@@ -49,6 +49,7 @@ type record struct {
 	Reply     string `json:"reply,omitempty"`
 	Witness   string `json:"witness,omitempty"` // "" ok, else what failed
 	Recover   string `json:"recover,omitempty"` // "" ok: the affected backend is usable again
+	Refresh   string `json:"refresh,omitempty"` // "" ok: the slot refresher of every processor went on asking (cluster-nodes)
 	StackMB   int    `json:"stackMB"`
 	HeapMB    int    `json:"heapMB"`    // peak of the heap in use; samples above heapConfirmMB are taken after a collection
 	HeapRawMB int    `json:"heapRawMB"` // peak of the raw samples
@@ -116,6 +117,8 @@ func payloadBytes(v vector, addr string) ([]byte, string) {
 	var s string
 	json.Unmarshal(v.Payload, &s)
 	s = strings.Replace(s, "{ADDR}", addr, -1)
+	// runes that equal an ASCII letter only under Unicode case folding (long s, Kelvin sign)
+	s = strings.NewReplacer("{017f}", "\u017f", "{212a}", "\u212a").Replace(s)
 	switch v.Form {
 	case "error":
 		return []byte("-" + s + "\r\n"), s
@@ -189,6 +192,29 @@ func (e *env) witness(idx int, tries int) string {
 		time.Sleep(30 * time.Millisecond)
 	}
 	return "keyed command keeps failing: " + last
+}
+
+// refreshersAlive: the slot refresher of both processors starts another round within d ("" ok)
+func (e *env) refreshersAlive(d time.Duration) string {
+	const ctr = "upstream.slots_refresh.total"
+	ps := []*sut.Redis{e.px, e.pxc}
+	base := make([]int64, len(ps))
+	for i, p := range ps {
+		base[i] = sut.ServiceStats(p.Name)[ctr]
+	}
+	dl := time.Now().Add(d)
+	for {
+		stuck := ""
+		for i, p := range ps {
+			if sut.ServiceStats(p.Name)[ctr] <= base[i] {
+				stuck = fmt.Sprintf("the slot refresher of processor %d did not start another round within %v (rounds so far: %d)", i, d, base[i])
+			}
+		}
+		if stuck == "" || time.Now().After(dl) {
+			return stuck
+		}
+		time.Sleep(10 * time.Millisecond)
+	}
 }
 
 // incomplete: a well-formed prefix of a frame that never completes; the simulated backend closes its side after it
@@ -395,6 +421,18 @@ func (e *env) runVector(id int, v vector) (rec record) {
 		if p, err := c.Do(2*time.Second, "PING"); err != nil || string(p.Str) != "PONG" {
 			rec.Witness = fmt.Sprintf("compressing processor not serving afterwards: %v %v", p, err)
 		}
+	case v.Ctx == "keyed-child":
+		// the reply to one child of a request the proxy splits: MGET over a key of each node
+		node.Script(&simredis.Scripted{Match: func(c string, a [][]byte) bool { return c == "get" && len(a) > 1 && string(a[1]) == e.k[0] },
+			Raw: raw, Times: 1})
+		c, err := sut.Dial(e.px.Addr)
+		if err != nil {
+			rec.Err = err.Error()
+			return
+		}
+		defer c.Close()
+		c.SendCmd("MGET", e.k[0], e.k[1])
+		read(c, 4*time.Second)
 	case v.Ctx == "keyed" || v.Ctx == "scan":
 		cmd := "get"
 		if v.Ctx == "scan" {
@@ -476,6 +514,8 @@ func (e *env) runVector(id int, v vector) (rec record) {
 		n.ClearScripts()
 	}
 	if v.Ctx == "cluster-nodes" {
+		// the refresher's own request got its answer: it goes on asking (a request that is never answered blocks it for ever)
+		rec.Refresh = e.refreshersAlive(6 * time.Second)
 		// a backend that lies about the topology may make keyed commands fail (error replies) until the
 		// next refresh; the proxy must keep answering and must recover once the backend tells the truth again
 		rec.Witness = e.witness(other, 0)
@@ -529,7 +569,7 @@ func run(args []string) error {
 		write(record{Start: id})
 		rec := e.runVector(id, v)
 		write(rec)
-		if rec.Witness != "" || rec.Recover != "" || rec.Err != "" || rec.fresh {
+		if rec.Witness != "" || rec.Recover != "" || rec.Refresh != "" || rec.Err != "" || rec.fresh {
 			// start from a clean proxy for the next vector
 			e.close()
 			if e, err = newEnv(); err != nil {
